@@ -145,7 +145,9 @@ def cli_typing(camp, rng, n):
                     toks += ["type", text]
                     exp_ops += [("keyPress", ch) for ch in text]
                 elif r < 0.65:
-                    text = "".join(rng.choice(TEXT_ALPHABET + ["\n", "\t", "\r\n"]) for _ in range(rng.randrange(0, 7)))
+                    # line ends are LF / CR LF (and TAB is a key): every other control or separator character is typed as itself
+                    text = "".join(rng.choice(TEXT_ALPHABET + ["\n", "\t", "\r\n", "\x0b", "\x0c", "\x1c", "\x1d", "\x1e", "\x85", "\u2028", "\u2029"])
+                                   for _ in range(rng.randrange(0, 7)))
                     path = os.path.join(tmp, "t%d_%d.txt" % (i % 8, j))
                     with open(path, "w", encoding="utf-8", newline="") as fh:
                         fh.write(text)
